@@ -48,6 +48,15 @@ class TableGet:
     def sym_eq(self, ex, other):
         return TableGet.eq(self, other)
 
+    def is_none(self, ex):
+        """`table.get(key, default) is None`: the key misses the table and the default is None (no table value is None)."""
+        from .values import vor, vnot, Unsupported
+        if any(v is None for v in self.table.values()):
+            raise Unsupported('`is None` of a lookup in a table that holds None')
+        if self.default is not None:
+            return False
+        return vnot(vor(*[ex.equals(k, self.key) for k in self.table]))
+
     @staticmethod
     def eq(a, b):
         if not isinstance(a, TableGet) or not isinstance(b, TableGet):
